@@ -30,6 +30,7 @@ KFO(s) == [prio |-> 5, ticks |-> 157, ot |-> KSide(<<17, 0, 0, s>>, 2), to |-> K
            cpath |-> << [k |-> "port", p |-> 1, l |-> 0], [k |-> "class", v |-> 2], [k |-> "inst", v |-> 1] >>]
 Open(s)  == [svc |-> "fwdopen", fo |-> KFO(s), ms |-> <<>>]
 Shut(s)  == [svc |-> "fwdclose", fo |-> KFO(s), ms |-> <<>>]
+End      == [svc |-> "end", ms |-> <<>>]                                     \* the peer ends the session without closing its connections
 Via(s, r) == r @@ [cid |-> <<17, 0, 0, s>>]                                 \* a request sent over the session's connection
 Bundle(ms) == [svc |-> "multi", tag |-> 0, mode |-> "sym", idx |-> 0 - 1, n |-> 0, off |-> 0, typ |-> "INT", vals |-> <<>>, bytes |-> <<>>, ms |-> ms]
 
@@ -38,7 +39,7 @@ KOps == CASE Which = "torn"    -> << <<WAll(7)>>, <<RAll>> >>
           [] Which = "bundle"  -> << <<Bundle(<<WLow(30), RAll, WU>>)>>, <<RAll, WHigh(40)>> >>
           [] Which = "three"   -> << <<WAll(1)>>, <<WAll(2)>>, <<RAll, RU>> >>
           [] Which = "mixed"   -> << <<WLow(50), Bundle(<<RAll, WHigh(60)>>)>>, <<WAll(9), RAll>> >>
-          [] Which = "conn"    -> << <<Open(1), Via(1, WLow(70)), Shut(1)>>, <<Open(2), Via(2, RAll), Via(2, WHigh(80))>> >>
+          [] Which = "conn"    -> << <<Open(1), Via(1, WLow(70)), Shut(1)>>, <<Open(2), Via(2, RAll), Via(2, WHigh(80))>>, <<Open(3), End>> >>
           [] Which = "xtype"   -> << <<WAllX(7), WAllX(8)>>, <<RAll, RAll>> >>
           [] Which = "attr"    -> << <<WAll(7), WAll(8)>>, <<GAS1, GAL1, GAS1>> >>
 
@@ -56,7 +57,8 @@ NoTornRead == \A s \in Sessions : \A i \in 1 .. Len(got[s]) :
                        LET d == got[s][i].data  n == Len(d) IN \A a, b \in 0 .. 7 : d[n - 15 + 2 * a] = d[n - 15 + 2 * b]
 
 \* ---- emission: the scenario with each session's request frames, and the thread schedules
-Frame(s, r) == IF IsConn(r) THEN [kind |-> r.svc, sess |-> <<s, 0, 0, 0>>, ctx |-> <<s, 1, 2, 3, 4, 5, 6, 7>>, wrap |-> "simple", route |-> <<>>, tmo |-> 5,
+Frame(s, r) == IF r.svc = "end" THEN [kind |-> "end"]
+               ELSE IF IsConn(r) THEN [kind |-> r.svc, sess |-> <<s, 0, 0, 0>>, ctx |-> <<s, 1, 2, 3, 4, 5, 6, 7>>, wrap |-> "simple", route |-> <<>>, tmo |-> 5,
                                   req |-> r, fo |-> r.fo]
                ELSE IF "cid" \in DOMAIN r THEN [kind |-> "unit", sess |-> <<s, 0, 0, 0>>, ctx |-> <<s, 1, 2, 3, 4, 5, 6, 7>>, wrap |-> "simple", route |-> <<>>,
                                                 tmo |-> 0, req |-> r, cid |-> r.cid, seq |-> s]
@@ -64,7 +66,8 @@ Frame(s, r) == IF IsConn(r) THEN [kind |-> r.svc, sess |-> <<s, 0, 0, 0>>, ctx |
                      route |-> << [k |-> "port", p |-> 1, l |-> 0] >>, tmo |-> 5, req |-> r]
 ASSUME PrintT(ToJson([k |-> "scenario", which |-> Which, cfg |-> KCfg, mem0 |-> KMem0,
                       ops |-> [ s \in 1 .. Len(KOps) |-> [ i \in 1 .. Len(KOps[s]) |->
-                                 [r |-> KOps[s][i], kind |-> Frame(s, KOps[s][i]).kind, fb |-> FrameBytes(KCfg, Frame(s, KOps[s][i]))] ] ]]))
+                                 [r |-> KOps[s][i], kind |-> Frame(s, KOps[s][i]).kind,
+                                  fb |-> IF KOps[s][i].svc = "end" THEN <<>> ELSE FrameBytes(KCfg, Frame(s, KOps[s][i]))] ] ]]))
 \* thread schedules: session `f' runs `a' scheduling points, then session `g' runs `b' points (99 = to completion), then the rest
 Schedules == { <<f, a, g, b>> : f \in 1 .. Len(KOps), a \in 0 .. 80, g \in 1 .. Len(KOps), b \in (1 .. 16) \cup {99} }
 ASSUME PrintT(ToJson([k |-> "schedules", s |-> { x \in Schedules : x[1] # x[3] }]))
